@@ -220,6 +220,160 @@ class C15OracleAll(C15Oracle):
     combos = "all"
 
 
+STRUCT_LEVEL = True       # switched on with the dotstruct request of the model driver
+
+
+def unquote(s_):
+    """the text a DOT double-quoted string holds (the inverse of prov.dot._quoted)"""
+    if s_ is None:
+        return None
+    if len(s_) >= 2 and s_[0] == '"' and s_[-1] == '"':
+        out, i, body = [], 0, s_[1:-1]
+        while i < len(body):
+            if body[i] == "\\" and i + 1 < len(body) and body[i + 1] in '\\"':
+                out.append(body[i + 1]); i += 2
+            else:
+                out.append(body[i]); i += 1
+        return "".join(out)
+    return s_
+
+
+def pydot_structure(g):
+    """the statements of a pydot graph in insertion order, without texts and styles: the form Dotg.sx_stmt prints"""
+    items = []
+    for name, lst in g.obj_dict["nodes"].items():
+        for nd in lst:
+            a = nd["attributes"]
+            shape = a.get("shape")
+            url = a.get("URL")
+            if shape == "point":
+                cls = "blank"
+            elif shape == "note":
+                cls = "ann:%d" % a.get("label", "").count("<TR>")
+            else:
+                cls = None
+            items.append((nd["sequence"], ["node", name.strip('"'), cls, url, a]))
+    for key, lst in g.obj_dict["edges"].items():
+        for ed in lst:
+            a = ed["attributes"]
+            t, h = [str(x).strip('"') for x in ed["points"]]
+            link = a.get("style") == "dashed"
+            items.append((ed["sequence"], ["edge", t, h, ["some", a["label"]] if "label" in a else "none", "link" if link else "edge"]))
+    subs = []
+    for name, lst in g.obj_dict["subgraphs"].items():
+        for sg in lst:
+            items.append((sg["sequence"], ["sub", name, unquote(sg["attributes"].get("URL"))]))
+            subs.append((sg["sequence"], sg))
+    items.sort(key=lambda x: x[0])
+    return [x for _, x in items], [sg for _, sg in sorted(subs, key=lambda x: x[0])]
+
+
+class _G:
+    def __init__(self, od):
+        self.obj_dict = od
+
+
+def structure_correspondence(tier, seed):
+    """the structure prov_to_dot builds against the model (Dotg.dot_structure): for generated API programs and the fixed
+    families, every document of the final world is converted with every combination of show_nary x show_element_attributes
+    x show_relation_attributes, and the statements of the pydot graph and of every cluster — node identifiers, the class of
+    every node (element of which kind / generic with which inferred class / blank / annotation with how many rows), its
+    URL, every edge with its label, the clusters with their URLs — are compared, in order, with the model's."""
+    import itertools
+    import random
+    import prov.model as M
+    from prov.dot import prov_to_dot, DOT_PROV_STYLE, GENERIC_NODE_STYLE
+    from harness import common, progs
+    from harness.sexp import dumps, loads
+    from harness.props import c01
+    rng = random.Random(seed * 17 + 5)
+    programs = list(fixed_programs())
+    n = 30 if tier == "quick" else 400
+    for i in range(n):
+        ops, _ = progs.generate(rng.randrange(1 << 60), rng.randrange(5, 20), rng.choice(["graph", "mixed", "records"]), observe_each=False)
+        programs.append([o for o in ops if o[0] not in ("ExportJson", "ExportProvn", "LoadJson", "ToGraph", "GraphRoundTrip", "ObserveAll")])
+    elem_cls = {}
+    for k in ("Entity", "Activity", "Agent"):
+        elem_cls[json.dumps(DOT_PROV_STYLE[M.PROV[k]], sort_keys=True)] = "elem:" + k
+    gen_cls = {json.dumps(DOT_PROV_STYLE[0], sort_keys=True): "gen:-"}
+    for c, st in GENERIC_NODE_STYLE.items():
+        if c is not None:
+            gen_cls.setdefault(json.dumps(st, sort_keys=True), "gen:" + c.__name__[4:])
+
+    def classify_node(stmt, is_elem_ids):
+        _, name, cls, url, a = stmt
+        if cls is None:
+            style = json.dumps({k: v for k, v in a.items() if k not in ("label", "URL")}, sort_keys=True)
+            cls = elem_cls.get(style) or gen_cls.get(style) or "unknown-style"
+        return ["node", name, cls, ["some", unquote(url)] if url is not None else "none"]
+    exp, reqs = [], []
+    for ops in programs:
+        im = I.Impl()
+        ok = True
+        for op in ops:
+            try:
+                im.step(op)
+            except Exception:
+                ok = False
+                break
+        if not ok:
+            continue
+        if any(c01.has_mixed_kinds(d) for d in im.docs):
+            continue
+        multi = False
+        for d in im.docs:
+            for c in [d] + list(d.bundles):
+                for r in c.get_records():
+                    if r.is_relation() and any(len(vs) > 1 for a, vs in r._attributes.items() if a in M.PROV_ATTRIBUTE_QNAMES):
+                        multi = True           # first(set) of several values of a reference attribute: Python's set order
+        if multi:
+            continue
+        for nary, ea, ra in itertools.product([True, False], repeat=3):
+            structs = []
+            try:
+                for d in im.docs:
+                    g = prov_to_dot(d, show_nary=nary, show_element_attributes=ea, show_relation_attributes=ra)
+                    main, subs = pydot_structure(g)
+                    main = [classify_node(x, None) if x[0] == "node" else x for x in main]
+                    cl = []
+                    for sg in subs:
+                        body, _ = pydot_structure(_G(sg))
+                        cl.append([classify_node(x, None) if x[0] == "node" else x for x in body])
+                    structs.append([main, cl])
+            except Exception as e:
+                structs = None
+            exp.append((ops, (nary, ea, ra), structs))
+            reqs.append(dumps(["dotstruct", "true" if nary else "false", "true" if ea else "false", "true" if ra else "false",
+                               I.float_table(ops)] + ops))
+    outs = common.run_model_batch(reqs)
+    bad = []
+    ndocs = 0
+    for (ops, opts, structs), o in zip(exp, outs):
+        m = loads(o)
+        if structs is None:
+            continue
+        if not isinstance(m, list) or len(m) != len(structs):
+            bad.append({"program": ops, "opts": list(opts), "model": str(m)[:200]})
+            continue
+        for di, (mm, ii) in enumerate(zip(m, structs)):
+            if mm == "ood":
+                continue
+            ndocs += 1
+            # a generic node of inferred class Entity has the very style of one without inferred class: not told apart here
+            mm = [[(["node", x[1], "gen:-", x[3]] if x[0] == "node" and x[2] == "gen:Entity" else x) for x in part] for part in [mm[0]] + mm[1]]
+            mm = [mm[0], mm[1:]]
+            if mm != ii:
+                diff = None
+                for k, (x, y) in enumerate(zip(mm[0] + sum(mm[1], []), ii[0] + sum(ii[1], []))):
+                    if x != y:
+                        diff = {"statement": k, "model": x, "implementation": y}
+                        break
+                bad.append({"program": ops, "opts": list(opts), "doc": di, "first": diff,
+                            "model_len": [len(mm[0])] + [len(c) for c in mm[1]], "implementation_len": [len(ii[0])] + [len(c) for c in ii[1]]})
+                break
+    return ndocs, bad
+
+
 def classify(f, ops):
     if "control-character" in f.get("feats", []):
         return "C15-F1"
@@ -299,6 +453,15 @@ def run(tier, seed, log, model_runs=True, enlarged=False):
         for b in bad[:2]:
             res["disagreements"].append({"first_difference": json.dumps(b)[:800],
                                          "theorem": "correspondence Dot.dot_quote / html_escape ~ prov.dot._quoted / html.escape"})
+        if STRUCT_LEVEL:
+            n, bad = structure_correspondence(tier, seed)
+            res["coverage"]["structure_cases"] = n
+            log("drawing structure: %d document x option cases, %d disagreements" % (n, len(bad)))
+            for b in bad[:2]:
+                res["disagreements"].append({"first_difference": json.dumps({k: v for k, v in b.items() if k != "program"})[:1200],
+                                             "program": b.get("program"),
+                                             "theorem": "correspondence Dotg.dot_structure ~ the pydot graph prov_to_dot builds "
+                                                        "(C15_elements_one_node_each, C15_relation_path, C15_nary_further_ends are stated over the model)"})
     return res
 
 
